@@ -389,7 +389,7 @@ func runC17(r *Run) {
 	isSuccess := func(ret *ssa.Return, c *PathCtx) bool { return c.NilState(ret.Results[idx]) == +1 }
 
 	// ---- port
-	pt := r.Rule("C17.port", "at every success return of ParseURI the port field satisfies 0 <= port <= 65535 (proved from the guards on the value parsed by strconv.Atoi)", 1)
+	pt := r.Rule("C17.port", "at every success return of ParseURI the port field satisfies 0 <= port <= 65535 (proved from the guards on the value parsed by strconv.Atoi); ErrPort is returned only when the conversion failed or the number is proved outside that range", 1)
 	{
 		pr := newProver(p, parse)
 		var loads []*ssa.UnOp
@@ -474,6 +474,61 @@ func runC17(r *Run) {
 		}
 		if n == 0 {
 			pt.Fail("success return", "ParseURI has no `return uri, nil`")
+		}
+		// and the other way round: the port error is returned only for a text strconv refused or for a number
+		// proved outside 0-65535 - every port of the range is accepted
+		if errPort, _ := p.Stun.Members["ErrPort"].(*ssa.Global); errPort != nil {
+			portStores := indexStores(parse, portF)
+			rep := map[*ssa.Return]bool{}
+			nRej := 0
+			q := &PathQuery{P: p, Fn: parse}
+			q.Step = func(in ssa.Instruction, deferred bool, st uint64, c *PathCtx) (uint64, bool) {
+				if i, isSt := portStores.idx[in]; isSt {
+					return uint64(i), false
+				}
+				return st, false
+			}
+			q.AtReturn = func(r2 *ssa.Return, st uint64, c *PathCtx) {
+				ev := c.Resolve(deref(c.Resolve(r2.Results[idx])))
+				if !loadsGlobal(ev, errPort) || rep[r2] {
+					return
+				}
+				nRej++
+				if st == 0 {
+					return // refused before any number was stored
+				}
+				v := c.Resolve(portStores.stores[st-1].Val)
+				sv := stripConvs(v)
+				if ex, isEx := sv.(*ssa.Extract); isEx {
+					for _, u := range *ex.Tuple.Referrers() {
+						if e2, isE := u.(*ssa.Extract); isE && e2.Index == 1 && c.NilState(e2) == -1 {
+							return // the conversion failed
+						}
+					}
+				}
+				conds := c.PathConds()
+				outside := false
+				cands := []ssa.Value{v}
+				for _, ld := range loads {
+					// the guard may read the number back from the field: the reads the return's path has passed
+					if instrDominates(ld, r2) || reachableFrom(ld, r2) {
+						cands = append(cands, pr.canonLoad(ld))
+					}
+				}
+				for _, cv := range cands {
+					below := pr.Prove(r2, Goal{X: cv, YL: &lin{zeroTerm, -1}, C: 0, assume: conds})
+					above := pr.Prove(r2, Goal{XL: &lin{zeroTerm, 65536}, Y: cv, C: 0, assume: conds})
+					if below.OK || above.OK {
+						outside = true
+					}
+				}
+				if !outside {
+					rep[r2] = true
+					pt.ViolationPath(parse, instrPos(r2), "port refused although it may lie within 0-65535", "on this path the port text converted and the number is not proved negative or above 65535: a valid port (0 or 65535, say) is refused", c.Witness(parse, r2))
+				}
+			}
+			q.Run()
+			pt.Instance("port rejections", true, map[string]interface{}{"reject_paths": nRej})
 		}
 	}
 	pt.Done()
@@ -733,6 +788,16 @@ func runC17(r *Run) {
 
 func checkParsePerScheme(r *Run, rc *RuleCtx, parse *ssa.Function, uc *uriConsts, schemeF, protoF *types.Var, isSuccess func(*ssa.Return, *PathCtx) bool) {
 	p := r.P
+	// the exported default ports (what a caller puts into a URI it builds by hand) are the RFC's
+	for name, want := range map[string]int64{"DefaultPort": 3478, "DefaultTLSPort": 5349} {
+		if c, ok := p.Stun.Pkg.Scope().Lookup(name).(*types.Const); ok {
+			got, exact := constant.Int64Val(constant.ToInt(c.Val()))
+			rc.Instance("const "+name, true, map[string]interface{}{"constant": name, "value": got, "rfc": want})
+			if !exact || got != want {
+				rc.Violation(parse, c.Pos(), fmt.Sprintf("%s = %d", name, got), fmt.Sprintf("the default port of RFC 7064/7065 is %d", want))
+			}
+		}
+	}
 	parseProto := p.Fn("parseProto")
 	wantProto := map[string]string{"stun": "udp", "stuns": "tcp", "turn": "udp", "turns": "tcp"}
 	wantPort := map[string]string{"stun": ":3478", "stuns": ":5349", "turn": ":3478", "turns": ":5349"}
@@ -836,6 +901,45 @@ func checkParsePerScheme(r *Run, rc *RuleCtx, parse *ssa.Function, uc *uriConsts
 						return
 					}
 					finals[fmt.Sprintf("const %d", cv)] = true
+					// for turn/turns the default is what is stored when the query named no transport: the path has
+					// tested the transport (the field, the value parseProto returned, or the query's text) against
+					// "none" and found it so
+					if strings.HasPrefix(name, "turn") && cv == uc.Proto[wantProto[name]] {
+						tested := false
+						for _, pc := range c.PathConds() {
+							cond, val := pc.Cond, pc.Val
+							for {
+								u, isU := cond.(*ssa.UnOp)
+								if !isU || u.Op != token.NOT {
+									break
+								}
+								cond, val = u.X, !val
+							}
+							bo, isB := c.Resolve(cond).(*ssa.BinOp)
+							if !isB || (bo.Op != token.EQL && bo.Op != token.NEQ) {
+								continue
+							}
+							x, y := stripConvs(deref(bo.X)), bo.Y
+							isProto := valueIsLoadOfField(x, protoF)
+							if e, isE := x.(*ssa.Extract); isE {
+								if cc, isC := e.Tuple.(*ssa.Call); isC && parseProto != nil && callsFn(cc, parseProto) && e.Index == 0 {
+									isProto = true
+								}
+							}
+							if cc, isC := x.(*ssa.Call); isC && p.Fn("NewProtoType") != nil && callsFn(cc, p.Fn("NewProtoType")) {
+								isProto = true
+							}
+							if k, isK := constInt(y); isK && isProto && k == uc.Proto[""] && (bo.Op == token.EQL) == val {
+								tested = true
+							}
+							if ks, isS := constString(y); isS && ks == "" && fromTransportQuery(bo.X) && (bo.Op == token.EQL) == val {
+								tested = true
+							}
+						}
+						if !tested {
+							finals["default stored without finding the query's transport absent"] = true
+						}
+					}
 				} else if cv, ok := constOfTableLoad(p, v); ok {
 					finals[fmt.Sprintf("const %d", cv)] = true
 				} else if e, ok := deref(v).(*ssa.Extract); ok {
@@ -1250,6 +1354,31 @@ func checkDialTable(r *Run, rc *RuleCtx, dial *ssa.Function, uc *uriConsts, sche
 		dTLS
 		dNewNet
 	)
+	// the error results of the steps DialURI takes (calls returning an error, alone or last in a tuple)
+	var stepErrs []ssa.Value
+	eachInstr(dial, func(b *ssa.BasicBlock, i int, in ssa.Instruction) {
+		cc, ok := in.(*ssa.Call)
+		if !ok {
+			return
+		}
+		switch rt := cc.Type().(type) {
+		case *types.Tuple:
+			if rt.Len() > 0 && isErrorType(rt.At(rt.Len()-1).Type()) {
+				for _, u := range *cc.Referrers() {
+					if e, isE := u.(*ssa.Extract); isE && e.Index == rt.Len()-1 {
+						stepErrs = append(stepErrs, e)
+					}
+				}
+			}
+		default:
+			if isErrorType(cc.Type()) {
+				if sc := cc.Call.StaticCallee(); sc != nil && sc.Pkg != nil && sc.Pkg.Pkg.Path() == "fmt" {
+					return
+				}
+				stepErrs = append(stepErrs, cc)
+			}
+		}
+	})
 	for _, s := range schemes {
 		for _, t := range protos {
 			q := &PathQuery{P: p, Fn: dial, Fold: foldFields(map[*types.Var]int64{schemeF: uc.Scheme[s], protoF: uc.Proto[t]})}
@@ -1313,7 +1442,23 @@ func checkDialTable(r *Run, rc *RuleCtx, dial *ssa.Function, uc *uriConsts, sche
 						outcomes["unsupported"] = true
 					}
 				}
-				// other error returns (dial/net failures) are not outcomes of the table
+				// other error returns (dial/net failures) are not outcomes of the table - but they are taken only
+				// when a step has failed: an error return on a path on which every step's error is nil (a test
+				// the wrong way round) makes DialURI fail for a URI it has just dialled
+				if errUnsup == nil || !loadsGlobal(v, errUnsup) {
+					failed := false
+					for _, ev := range stepErrs {
+						if c.NilState(ev) == -1 {
+							failed = true
+						}
+					}
+					if !failed {
+						outcomes["error return although no step failed"] = true
+						if badSite == nil {
+							badSite = ret
+						}
+					}
+				}
 			}
 			q.Run()
 			var ol []string
@@ -1341,6 +1486,49 @@ func checkDialTable(r *Run, rc *RuleCtx, dial *ssa.Function, uc *uriConsts, sche
 				}
 				rc.Violation(dial, pos, fmt.Sprintf("%s/%s -> %v", sn, tn, ol), fmt.Sprintf("expected %q: %s", want, why))
 			}
+		}
+	}
+	// the address dialled is the URI's own: JoinHostPort(uri.Host, Itoa(uri.Port)), handed to every dial step
+	{
+		portF := FieldVar(p.Named("URI"), "Port")
+		var joins []*ssa.Call
+		eachInstr(dial, func(b *ssa.BasicBlock, i int, in ssa.Instruction) {
+			if cc, ok := in.(*ssa.Call); ok && isPkgFuncCall(cc, "net", "JoinHostPort") && len(cc.Call.Args) == 2 {
+				joins = append(joins, cc)
+			}
+		})
+		isAddr := func(v ssa.Value) bool {
+			for _, j := range joins {
+				if v == ssa.Value(j) {
+					return true
+				}
+			}
+			return false
+		}
+		for _, j := range joins {
+			okHost := valueIsLoadOfField(j.Call.Args[0], hostF)
+			okPort := false
+			if it, isC := j.Call.Args[1].(*ssa.Call); isC && isPkgFuncCall(it, "strconv", "Itoa") && len(it.Call.Args) == 1 {
+				okPort = valueIsLoadOfField(stripConvs(it.Call.Args[0]), portF)
+			}
+			rc.Instance("DialURI|address", true, map[string]interface{}{"host_is_uri_host": okHost, "port_is_uri_port": okPort})
+			if !okHost || !okPort {
+				rc.Violation(dial, instrPos(j), "dial address "+exprDepth(j, 0), "the address dialled is not built from the URI's host and port: the client talks to another endpoint than the URI names")
+			}
+		}
+		if len(joins) > 0 {
+			eachInstr(dial, func(b *ssa.BasicBlock, i int, in ssa.Instruction) {
+				cc, ok := in.(*ssa.Call)
+				if !ok || !cc.Call.IsInvoke() || len(cc.Call.Args) != 2 {
+					return
+				}
+				if n := cc.Call.Method.Name(); n != "Dial" && n != "ResolveUDPAddr" && n != "ResolveTCPAddr" {
+					return
+				}
+				if !isAddr(cc.Call.Args[1]) {
+					rc.Violation(dial, instrPos(cc), cc.Call.Method.Name()+" of "+exprDepth(cc.Call.Args[1], 0), "this step does not dial the address built from the URI's host and port")
+				}
+			})
 		}
 	}
 	// ServerName = Host on a private copy, unconditionally before the Client call
